@@ -17,7 +17,7 @@
 
 enum { FN_INITIALIZE = 1, FN_FINALIZE, FN_GETSLOTLIST, FN_GETTOKENINFO, FN_OPENSESSION, FN_CLOSESESSION, FN_GETSESSIONINFO,
        FN_LOGIN, FN_LOGOUT, FN_FINDINIT, FN_FIND, FN_FINDFINAL, FN_GETATTR, FN_SIGNINIT, FN_SIGN, FN_CREATEOBJECT,
-       FN_DESTROYOBJECT, FN_GENKEYPAIR, FN_GETINFO, FN_GETSLOTINFO, FN_CLOSEALL };
+       FN_DESTROYOBJECT, FN_GENKEYPAIR, FN_GETINFO, FN_GETSLOTINFO, FN_CLOSEALL, FN_GENKEY, FN_ENCRYPTINIT, FN_ENCRYPT, FN_UNWRAP };
 
 static pthread_mutex_t mu = PTHREAD_MUTEX_INITIALIZER;
 static int fd = -1;
@@ -240,6 +240,41 @@ CK_RV C_GenerateKeyPair(CK_SESSION_HANDLE h, CK_MECHANISM_PTR m, CK_ATTRIBUTE_PT
 	*ppub = a; *ppriv = b; end(); return rv;
 }
 
+/* in: handle, mechanism, template. out: key handle */
+CK_RV C_GenerateKey(CK_SESSION_HANDLE h, CK_MECHANISM_PTR m, CK_ATTRIBUTE_PTR t, CK_ULONG n, CK_OBJECT_HANDLE_PTR pk) {
+	begin(FN_GENKEY); w_u64(h); w_mech(m); w_template(t, n);
+	CK_RV rv = call(); uint64_t o;
+	if (rv == CKR_DEVICE_REMOVED && fd < 0) { end(); return rv; }
+	if (r_u64(&o)) BROKEN();
+	*pk = o; end(); return rv;
+}
+CK_RV C_EncryptInit(CK_SESSION_HANDLE h, CK_MECHANISM_PTR m, CK_OBJECT_HANDLE key) {
+	begin(FN_ENCRYPTINIT); w_u64(h); w_mech(m); w_u64(key);
+	CK_RV rv = call(); end(); return rv;
+}
+/* in: handle, data, wantValue, capacity. out: length, flag, bytes if flag */
+CK_RV C_Encrypt(CK_SESSION_HANDLE h, CK_BYTE_PTR data, CK_ULONG n, CK_BYTE_PTR out, CK_ULONG_PTR outlen) {
+	begin(FN_ENCRYPT); w_u64(h); w_bytes(data, n); w_u64(out != NULL); w_u64(out ? *outlen : 0);
+	CK_RV rv = call(); uint64_t len, has;
+	if (rv == CKR_DEVICE_REMOVED && fd < 0) { end(); return rv; }
+	if (r_u64(&len) || r_u64(&has)) BROKEN();
+	if (has) {
+		unsigned char *tmp = malloc(len + 1); if (len && readn(tmp, len)) { free(tmp); BROKEN(); }
+		if (out && *outlen >= len) memcpy(out, tmp, len); else if (rv == CKR_OK) rv = CKR_BUFFER_TOO_SMALL;
+		free(tmp);
+	}
+	*outlen = (CK_ULONG)len; end(); return rv;
+}
+/* in: handle, mechanism, unwrapping key, wrapped bytes, template. out: key handle */
+CK_RV C_UnwrapKey(CK_SESSION_HANDLE h, CK_MECHANISM_PTR m, CK_OBJECT_HANDLE uk, CK_BYTE_PTR wrapped, CK_ULONG wn, CK_ATTRIBUTE_PTR t, CK_ULONG n,
+		  CK_OBJECT_HANDLE_PTR pk) {
+	begin(FN_UNWRAP); w_u64(h); w_mech(m); w_u64(uk); w_bytes(wrapped, wn); w_template(t, n);
+	CK_RV rv = call(); uint64_t o;
+	if (rv == CKR_DEVICE_REMOVED && fd < 0) { end(); return rv; }
+	if (r_u64(&o)) BROKEN();
+	*pk = o; end(); return rv;
+}
+
 static CK_RV unsupported(void) { return CKR_FUNCTION_NOT_SUPPORTED; }
 
 static CK_FUNCTION_LIST fl;
@@ -255,6 +290,7 @@ CK_RV C_GetFunctionList(CK_FUNCTION_LIST_PTR_PTR pp) {
 		fl.C_GetSessionInfo = C_GetSessionInfo; fl.C_Login = C_Login; fl.C_Logout = C_Logout;
 		fl.C_FindObjectsInit = C_FindObjectsInit; fl.C_FindObjects = C_FindObjects; fl.C_FindObjectsFinal = C_FindObjectsFinal;
 		fl.C_GetAttributeValue = C_GetAttributeValue; fl.C_SignInit = C_SignInit; fl.C_Sign = C_Sign;
+		fl.C_GenerateKey = C_GenerateKey; fl.C_EncryptInit = C_EncryptInit; fl.C_Encrypt = C_Encrypt; fl.C_UnwrapKey = C_UnwrapKey;
 		fl.C_CreateObject = C_CreateObject; fl.C_DestroyObject = C_DestroyObject; fl.C_GenerateKeyPair = C_GenerateKeyPair;
 		/* everything else: not supported */
 		void **p = (void **)&fl;
